@@ -54,6 +54,7 @@ type c11Case struct {
 	Cap     int    `json:"cap"`
 	Profile string `json:"profile"`
 	Data    string `json:"data"`
+	Debug   bool   `json:"debug,omitempty"` // the debug flag of the entry points: it must not change the protocol
 }
 
 func injectProfileFault(t *rapid.T, p *m.Profile, fault string) string {
@@ -151,7 +152,7 @@ func genC11(entry, fault string, capacity int) func(*rapid.T) c11Case {
 			v.Body.MarkPolarity(m.Pos)
 		}
 		gr := randomGraph(t, g.atoms, []string{"e0"}, 3)
-		c := c11Case{Entry: entry, Fault: fault, Cap: capacity}
+		c := c11Case{Entry: entry, Fault: fault, Cap: capacity, Debug: rapid.IntRange(0, 2).Draw(t, "debug") == 0}
 		c.Profile = injectProfileFault(t, &p, fault)
 		genScale(t, gr, 12)
 		c.Data = gr.JSONLD(genLDOpts(t, len(gr.Nodes)))
@@ -247,26 +248,26 @@ func decideC11(c c11Case) ev.Verdict {
 	cfgCall := func(q *rego.PreparedEvalQuery, withCfg bool) call {
 		return guard(func() (string, error) {
 			if withCfg {
-				return pkg.ValidateCompiledWithConfiguration(q, c.Data, false, &ch, clock0, config.DefaultReportConfiguration())
+				return pkg.ValidateCompiledWithConfiguration(q, c.Data, c.Debug, &ch, clock0, config.DefaultReportConfiguration())
 			}
-			return pkg.ValidateCompiled(q, c.Data, false, &ch)
+			return pkg.ValidateCompiled(q, c.Data, c.Debug, &ch)
 		})
 	}
 	switch c.Entry {
 	case "Validate":
 		expected = append(append([]e.EventType{}, compilePart...), validatePart...)
-		res = guard(func() (string, error) { return pkg.Validate(c.Profile, c.Data, false, &ch) })
+		res = guard(func() (string, error) { return pkg.Validate(c.Profile, c.Data, c.Debug, &ch) })
 	case "ValidateWithConfiguration":
 		expected = append(append([]e.EventType{}, compilePart...), validatePart...)
 		res = guard(func() (string, error) {
-			return pkg.ValidateWithConfiguration(c.Profile, c.Data, false, &ch, clock0, config.DefaultReportConfiguration())
+			return pkg.ValidateWithConfiguration(c.Profile, c.Data, c.Debug, &ch, clock0, config.DefaultReportConfiguration())
 		})
 	case "CompileProfile":
 		expected = compilePart
 		var q *rego.PreparedEvalQuery
 		res = guard(func() (string, error) {
 			var err error
-			q, err = pkg.CompileProfile(c.Profile, false, &ch)
+			q, err = pkg.CompileProfile(c.Profile, c.Debug, &ch)
 			return "", err
 		})
 		if res.Err == nil && res.Panic == "" {
@@ -280,7 +281,7 @@ func decideC11(c c11Case) ev.Verdict {
 		var q *rego.PreparedEvalQuery
 		res = guard(func() (string, error) {
 			var err error
-			q, err = pkg.CompileProfile(c.Profile, false, &ch)
+			q, err = pkg.CompileProfile(c.Profile, c.Debug, &ch)
 			return "", err
 		})
 		if res.Err == nil && res.Panic == "" {
